@@ -40,7 +40,7 @@ Sub-checks
     and/or after registration and between draws; draws a TextCanvas whose cells name palette entries, undefined
     names, None or AttrSpec objects.  The escape stream is decoded by the reference terminal ``vlib.vtmodel.VT``;
     every cell's (fg, bg, flags) must be what the palette strings say for the active depth.  The palette strings
-    are parsed here (``_parse_spec``), AttrSpec is never asked.  Readings:
+    are parsed here (``_parse_spec``); AttrSpec is never asked for an expectation.  Readings:
       * bright-is-bold normalisation: a bright basic foreground (8..15) with bright_is_bold is expected as colour-8
         plus bold; otherwise as 8..15 (SGR 90-97); bright backgrounds as 8..15 (SGR 100-107, TERM != linux);
       * 'hN' at 2**24 colours: index N or xterm's default RGB for N accepted; '#rgb' at 88/256: any cube entry
@@ -71,23 +71,25 @@ from vlib.vtmodel import VT
 PROPERTY = "C17"
 LEVEL = "exploration"
 RULE = (
-    "markup_short: exhaustive strings of length <= 4 (quick) / <= 5 (thorough) over a 5-6 letter alphabet per "
-    "encoding (a, space, newline, double-width, combining / Latin-1), every character its own tag (attributes "
-    "A,B,C,D,E cycling; variant with None for every other one), x width 1..5 x 4 wrap modes x 3 alignments x "
-    "str/bytes x 3 encodings. markup: Hypothesis nested markup (lists/tuples to depth 4, <= 8 text pieces of <= 6 "
-    "characters from vlib.gen_text alphabets incl. double-width, combining, DEC line drawing, empty strings and "
-    "empty lists; attributes from a pool of str, int, tuple, None, AttrSpec) x width 1..24 x wrap x align x "
-    "str/bytes x 3 encodings. maps: Hypothesis trees (Text leaves; Pile/Columns to depth 2; chains of 0-4 "
+    "markup_short: exhaustive strings of length <= 4 over 5 letters (quick) / <= 5 over 6 letters (thorough) per "
+    "encoding (a, space, newline, double-width, combining or Latin-1 ...), every character its own tag (attributes "
+    "A..E cycling; second form with every other character untagged; third form with neighbours sharing a tag), "
+    "x width 1..4 (1..6) x 4 wrap modes x 3 alignments x str/bytes x 3 encodings. markup / maps / sgr: Hypothesis draws a byte tape that a deterministic "
+    "builder turns into the JSON case. markup: nested markup (lists/tuples to depth 5, 1-5 top-level items, text "
+    "pieces of 0-6 characters from vlib.gen_text alphabets incl. double-width, combining, DEC line drawing, empty "
+    "strings and empty lists; attributes from a pool of str, int, tuple, None, AttrSpec) x width 1..24 x wrap x "
+    "align x str/bytes x 3 encodings. maps: trees (Text leaves; Pile/Columns to depth 2; chains of 0-4 "
     "AttrMap/AttrWrap with dict or single-attribute maps, {None: x} entries, missing keys, focus maps incl. {}), "
     "focus on/off, followed by 0-4 canvas-level fill_attr/fill_attr_apply steps. sgr_sweep: exhaustive 17x17 "
     "default/basic foreground x background pairs x depths 16,88,256,2**24 x bright_is_bold x 8 rotating setting "
     "subsets (all 64 subsets on 'default' and in the mono slot at depth 1), all h0..h255 as foreground and as "
-    "background at depths 88 (N<88), 256, 2**24, all 4096 '#rgb' at 256 (every 5th in quick), each resolved via "
-    "the palette and as AttrSpec cells. sgr: Hypothesis palettes (1-6 entries of all tuple forms, aliases, "
+    "background at depths 88 (N<88), 256, 2**24, all 4096 '#rgb' (every 5th in quick) at 88, 256 and 2**24, hN "
+    "resolved via the palette and as AttrSpec cells. sgr: palettes (0-5 entries of all tuple forms, aliases, "
     "re-registration, settings before or after the colour, late registration) x pre/post set_terminal_properties "
-    "x up to 2 further depth switches, 1-8 cells x 1-2 rows. Non-trivial: markup = a multi-byte character in a "
-    "text that has >= 2 attribute runs and a line wider than the width; maps = >= 2 maps nested on one path; "
-    "sgr = a defined non-default entry is displayed and the palette mixes >= 2 entry forms."
+    "x up to 2 further depth switches with a redraw each, 1-6 columns x 1-2 rows of cells naming entries, aliases, "
+    "undefined names, None or AttrSpec objects, glyph or blank. Non-trivial: markup = a multi-byte character in a "
+    "text that has >= 2 attribute runs and a line wider than the width; maps = >= 2 maps composed on one path "
+    "(widget maps plus canvas-level steps, at least one widget map); sgr = a defined entry is displayed and the palette mixes >= 2 entry forms."
 )
 ASSUMPTIONS = [
     "trusted base: the wcwidth table / DBCS rule / one-byte-one-column (vlib.widths), Python codecs, list "
@@ -341,6 +343,8 @@ def expected_line(src: Source, segs, mode, what, y):
                 raise Discard()  # C03: the layout's column count for the mark is wrong
             line.extend([("mark", a)] * sc)
             continue
+        if not (isinstance(third, int) and 0 <= offs < third <= len(text)):
+            raise Discard()  # not a documented text segment (C03)
         seen = 0
         for s, e, w in W.chars(text[offs:third], mode):
             a = uattr[offs + s]
@@ -437,7 +441,7 @@ def check_markup(case):
                 continue
             got, exp = azw.get(b, []), ezw.get(b + x0, [])
             if len(got) != len(exp):
-                _stat("skip:geometry-differs")
+                _stat("skip:zero-width-count-differs")
                 continue
             if got != exp:
                 raise Violation(
@@ -796,6 +800,7 @@ def _entry_expect(entry, depth, bib):
 
 
 DEFAULT_EXPECT = [({None}, {None}, frozenset())]
+_URWID_245 = (132, 132, 132)  # see KNOWN "C17-rgb-of-colour-245"
 _VISIBLE_ON_BLANK = frozenset(["underline", "reverse"])
 
 
@@ -832,7 +837,9 @@ def _register_model(model, items):
         if e[0] == "alias":
             if e[2] not in model:
                 raise Discard()  # "which must appear before this tuple in the list"
-            model[e[1]] = dict(model[e[2]], alias=True)
+            prev = model.get(e[1])
+            hist = [] if prev is None else [*prev["hist"], dict(prev, hist=[])]
+            model[e[1]] = dict(model[e[2]], alias=True, hist=hist)
         else:
             _, name, arity, fg, bg, mono, fgh, bgh = e
             if arity not in (3, 4, 6):
@@ -843,6 +850,7 @@ def _register_model(model, items):
                 "fgh": fgh if arity == 6 else None,
                 "bgh": bgh if arity == 6 else None,
                 "alias": False,
+                "hist": [],
             }
 
 
@@ -867,6 +875,10 @@ def _cell_ok(vc, glyph, acc):
         if (fgs is ANY or vc.fg in fgs) and (bgs is ANY or vc.bg in bgs) and vc.flags == flags:
             return True
     return False
+
+
+def _show_entry(e):
+    return None if e is None else {k: v for k, v in e.items() if k != "hist"}
 
 
 def _show_acc(acc):
@@ -908,14 +920,17 @@ def check_sgr(case):
 
         scr = raw.Screen(input=rfile, output=cap)
         depth, bib = 16, False
+        states = [(16, False)]
         if case.get("pre") is not None:
             depth, bib = case["pre"]
             scr.set_terminal_properties(colors=depth, bright_is_bold=bib)
+            states.append((depth, bib))
         _register_model(model, case["palette"])
         scr.register_palette([_entry_args(e) for e in case["palette"]])
         if case.get("post") is not None:
             depth, bib = case["post"]
             scr.set_terminal_properties(colors=depth, bright_is_bold=bib)
+            states.append((depth, bib))
         scr.start()
         started = True
         if case.get("late"):
@@ -930,7 +945,8 @@ def check_sgr(case):
             canv = urwid.TextCanvas([bytes(t) for t in text], [list(r) for r in attr_rows], maxcol=cols)
             scr.draw_screen((cols, rows), canv)
             vt.feed(cap.take())
-            bad_alias = None
+            states.append((depth, bib))
+            worst = None  # (priority, clause, message): an ordinary mismatch is reported before the two listed shapes
             for i, cell in enumerate(cells):
                 acc, is_alias = _cell_expect(cell, model, depth, bib)
                 r, c = divmod(i, cols)
@@ -939,22 +955,31 @@ def check_sgr(case):
                     continue
                 msg = (
                     f"[{enc} depth {depth} bright_is_bold {bib} draw {si}] cell {i} ({glyphs[i]!r}, attribute {cell!r}, "
-                    f"palette entry {model.get(cell) if not isinstance(cell, list) else None!r}) decoded as fg {vc.fg!r} "
+                    f"palette entry {_show_entry(model.get(cell)) if not isinstance(cell, list) else None}) decoded as fg {vc.fg!r} "
                     f"bg {vc.bg!r} flags {sorted(vc.flags)}; the palette specifies {_show_acc(acc)}"
                 )
+                prio, clause = 0, "sgr-cell"
                 if is_alias:
-                    if _cell_ok(vc, glyphs[i], DEFAULT_EXPECT):
-                        msg += " [alias shown as default]"
-                    bad_alias = bad_alias or msg
-                    continue
-                raise Violation("sgr-cell", msg)
-            if bad_alias:
-                raise Violation("sgr-cell:alias", bad_alias)
+                    prio, clause = 2, "sgr-cell:alias"
+                    # what the name meant at any earlier time (or nothing), under any of the settings so far
+                    stale = [DEFAULT_EXPECT] + [_entry_expect(h, d, b) for h in model[cell]["hist"] for d, b in states]
+                    if any(_cell_ok(vc, glyphs[i], acc2) for acc2 in stale):
+                        msg += " [alias shown as the name's previous definition]"
+                elif (vc.fg == _URWID_245 and any(f is not ANY and XTERM256[245] in f for f, _, _ in acc)) or (
+                        vc.bg == _URWID_245 and any(b is not ANY and XTERM256[245] in b for _, b, _ in acc)):
+                    prio, clause = 1, "sgr-cell:rgb-of-245"
+                if worst is None or prio < worst[0]:
+                    worst = (prio, clause, msg)
+            if worst is not None:
+                raise Violation(worst[1], worst[2])
     finally:
         try:
             if scr is not None and started:
                 scr.stop()
         finally:
+            if scr is not None:
+                scr._resize_pipe_rd.close()  # what Screen.__del__ does; not left to the garbage collector
+                scr._resize_pipe_wr.close()
             rfile.close()
             os.close(wfd)
             if old_term is None:
@@ -975,33 +1000,42 @@ SUBS = {
 # ---------------------------------------------------------------------------------------------
 # enumeration, strategies, classes
 
-SHORT_ALPHABETS = {
+SHORT_ALPHABETS = {  # quick uses the first five letters
     "utf-8": ["a", " ", "\n", "漢", "́", "é"],
-    "euc-jp": ["a", " ", "\n", "漢", "あ"],
-    "iso8859-1": ["a", " ", "\n", "é", "b"],
+    "euc-jp": ["a", " ", "\n", "漢", "あ", "b"],
+    "iso8859-1": ["a", " ", "\n", "é", "b", "ü"],
 }
 SHORT_ATTRS = ["A", "B", "C", "D", "E"]
 
 
-def short_cases(ctx, maxlen):
+def short_cases(ctx, maxlen, full):
+    widths = range(1, 7) if full else range(1, 5)
     for enc in ENCODINGS:
-        alpha = SHORT_ALPHABETS[enc]
+        alpha = SHORT_ALPHABETS[enc] if full else SHORT_ALPHABETS[enc][:5]
         idx = 0
         for n in range(1, maxlen + 1):
             for tup in itertools.product(alpha, repeat=n):
                 idx += 1
                 if not ctx.mine(idx):
                     continue
-                variants = [["L", *(["T", SHORT_ATTRS[k % 5], ch] for k, ch in enumerate(tup))]]
+                # every character its own tag; second form: every other character untagged (None between runs)
+                tagged = ["L", *(["T", SHORT_ATTRS[k % 5], ch] for k, ch in enumerate(tup))]
+                forms = [(tagged, False), (tagged, True)]
                 if n >= 2:
-                    variants.append(["L", *((["T", SHORT_ATTRS[k % 5], ch] if k % 2 else ch) for k, ch in enumerate(tup))])
-                for markup in variants:
-                    for is_bytes in (False, True):
-                        for width in range(1, 6):
-                            for wrap in WRAPS:
-                                for align in ALIGNS:
-                                    yield {"enc": enc, "bytes": is_bytes, "markup": markup, "width": width,
-                                           "wrap": wrap, "align": align}
+                    half = ["L", *((["T", SHORT_ATTRS[k % 5], ch] if k % 2 else ch) for k, ch in enumerate(tup))]
+                    forms.append((half, False))
+                    # third form: neighbours share a tag (equal adjacent attributes are merged by decompose_tagmarkup)
+                    pairs = ["L", *(["T", SHORT_ATTRS[(k // 2) % 5], ch] for k, ch in enumerate(tup))]
+                    forms.append((pairs, n % 2 == 0))
+                    if full:
+                        forms.append((half, True))
+                        forms.append((pairs, n % 2 == 1))
+                for markup, is_bytes in forms:
+                    for width in widths:
+                        for wrap in WRAPS:
+                            for align in ALIGNS:
+                                yield {"enc": enc, "bytes": is_bytes, "markup": markup, "width": width,
+                                       "wrap": wrap, "align": align}
 
 
 def markup_nontrivial(case):
@@ -1034,100 +1068,141 @@ def markup_classes(case):
     return out
 
 
-def _piece(enc, is_bytes, max_size=6):
-    alpha = [c for c in GT.ALPHABET[enc] if not (is_bytes and enc != "utf-8" and c in GT.DEC)] + ["\n", " ", " "]
-    return st.lists(st.sampled_from(alpha), min_size=0, max_size=max_size).map("".join)
+# Hypothesis draws a "tape" (list of small integers); the builders below turn a tape into a JSON case by reading
+# one integer per decision (0 once the tape is exhausted: the simplest choice).  This keeps generation cheap,
+# the case serialisable, and shrinking natural (shorter tape / smaller integers = simpler case).
 
 
-_attr_j = st.sampled_from(ATTR_POOL)
+class _Tape:
+    __slots__ = ("t", "i")
+
+    def __init__(self, ints):
+        self.t, self.i = ints, 0
+
+    def next(self, n):
+        v = self.t[self.i] if self.i < len(self.t) else 0
+        self.i += 1
+        return v % n
+
+    def pick(self, seq):
+        return seq[self.next(len(seq))]
 
 
-def _markup_strategy(enc, is_bytes, max_leaves=8):
-    piece = _piece(enc, is_bytes)
-    return st.recursive(
-        piece,
-        lambda inner: st.one_of(
-            st.lists(inner, min_size=0, max_size=4).map(lambda lst: ["L", *lst]),
-            st.tuples(_attr_j, inner).map(lambda t: ["T", t[0], t[1]]),
-            st.tuples(_attr_j, piece).map(lambda t: ["T", t[0], t[1]]),
-        ),
-        max_leaves=max_leaves,
-    ).filter(lambda m: markup_depth(m) <= 5)
+def _tape(max_size):
+    return st.binary(min_size=max_size // 2, max_size=max_size)
+
+
+KINDS = [(e, b) for e in ENCODINGS for b in (False, True)]
+_PIECE_LEN = [1, 2, 3, 1, 2, 4, 6, 0]
+_alpha_memo: dict = {}
+
+
+def _alphabet(enc, is_bytes):
+    key = (enc, is_bytes)
+    if key not in _alpha_memo:
+        _alpha_memo[key] = [c for c in GT.ALPHABET[enc] if not (is_bytes and enc != "utf-8" and c in GT.DEC)] + [
+            "\n", " ", " "]
+    return _alpha_memo[key]
+
+
+def _gen_piece(t, alpha):
+    return "".join(t.pick(alpha) for _ in range(t.pick(_PIECE_LEN)))
+
+
+def _gen_item(t, alpha, depth):
+    k = t.next(8) if depth < 3 else t.next(5)
+    if k <= 2:
+        return _gen_piece(t, alpha)
+    if k <= 4:
+        return ["T", t.pick(ATTR_POOL), _gen_piece(t, alpha)]
+    if k == 5:
+        return ["T", t.pick(ATTR_POOL), _gen_item(t, alpha, depth + 1)]
+    items = ["L", *(_gen_item(t, alpha, depth + 1) for _ in range(t.next(4)))]
+    return items if k == 6 else ["T", t.pick(ATTR_POOL), items]
+
+
+def _gen_markup(t, alpha, max_items=5):
+    if t.next(6) == 5:
+        return _gen_item(t, alpha, 0)
+    return ["L", *(_gen_item(t, alpha, 1) for _ in range(1 + t.next(max_items)))]
+
+
+def _build_markup_case(ints):
+    t = _Tape(ints)
+    enc, is_bytes = t.pick(KINDS)
+    wrap, align = t.pick(WRAPS), t.pick(ALIGNS)
+    width = 1 + t.next(8) if t.next(4) else 1 + t.next(24)
+    return {"enc": enc, "bytes": is_bytes, "markup": _gen_markup(t, _alphabet(enc, is_bytes)), "width": width,
+            "wrap": wrap, "align": align}
 
 
 def _markup_case_strategy():
-    def for_kind(kind):
-        enc, is_bytes = kind
-        return st.fixed_dictionaries({
-            "enc": st.just(enc),
-            "bytes": st.just(is_bytes),
-            "markup": _markup_strategy(enc, is_bytes),
-            "width": st.one_of(st.integers(1, 8), st.integers(1, 24)),
-            "wrap": st.sampled_from(WRAPS),
-            "align": st.sampled_from(ALIGNS),
-        })
-
-    return st.sampled_from([(e, b) for e in ENCODINGS for b in (False, True)]).flatmap(for_kind)
+    return _tape(70).map(_build_markup_case)
 
 
-_map_key = st.sampled_from(ATTR_POOL)
-_map_val = st.sampled_from(MAP_TARGETS + ATTR_POOL[1:4])
-_dict_spec = st.lists(st.tuples(_map_key, _map_val).map(list), min_size=0, max_size=4).map(lambda p: ["dict", p])
-_one_spec = _map_val.map(lambda a: ["one", a])
+_MAP_VALS = MAP_TARGETS + ATTR_POOL[1:4]
 
 
-def _tree_strategy(enc, is_bytes):
-    text = st.tuples(st.just("text"), _markup_strategy(enc, is_bytes, max_leaves=4), st.sampled_from(ALIGNS),
-                     st.sampled_from(WRAPS)).map(list)
-
-    def wrap_map(child):
-        attrmap = st.tuples(st.just("map"), st.just("AttrMap"), st.one_of(_dict_spec, _dict_spec, _one_spec),
-                            st.one_of(st.none(), _dict_spec, _one_spec), child).map(list)
-        attrwrap = st.tuples(st.just("map"), st.just("AttrWrap"), _one_spec, st.one_of(st.none(), _one_spec),
-                             child).map(list)
-        return st.one_of(attrmap, attrmap, attrwrap)
-
-    def chain(child, max_n):
-        # 0..max_n maps around child
-        s = child
-        for _ in range(max_n):
-            s = st.one_of(s, wrap_map(s))
-        return s
-
-    leaf = chain(text, 3)
-    pile = st.tuples(st.just("pile"), st.lists(leaf, min_size=1, max_size=3), st.integers(0, 5)).map(list)
-    cols = st.tuples(st.just("cols"), st.lists(leaf, min_size=1, max_size=3), st.integers(0, 5),
-                     st.integers(0, 2)).map(list)
-    level1 = chain(st.one_of(pile, cols), 2)
-    pile2 = st.tuples(st.just("pile"), st.lists(st.one_of(leaf, level1), min_size=1, max_size=3),
-                      st.integers(0, 5)).map(list)
-    cols2 = st.tuples(st.just("cols"), st.lists(st.one_of(leaf, level1), min_size=1, max_size=2), st.integers(0, 5),
-                      st.integers(0, 1)).map(list)
-    level2 = chain(st.one_of(pile2, cols2), 2)
-    return st.one_of(chain(text, 4), chain(text, 4), level1, level1, level2)
+def _gen_dict(t):
+    return ["dict", [[t.pick(ATTR_POOL), t.pick(_MAP_VALS)] for _ in range(t.next(5))]]
 
 
-_canvas_op = st.one_of(
-    st.tuples(st.just("fill"), _map_val).map(list),
-    st.tuples(st.just("apply"), st.lists(st.tuples(_map_key, _map_val).map(list), max_size=4)).map(list),
-)
+def _gen_map(t, child):
+    if t.next(3) == 2:
+        return ["map", "AttrWrap", ["one", t.pick(_MAP_VALS)], ["one", t.pick(_MAP_VALS)] if t.next(2) else None, child]
+    amap = _gen_dict(t) if t.next(3) else ["one", t.pick(_MAP_VALS)]
+    f = t.next(4)
+    fmap = None if f == 0 else ["one", t.pick(_MAP_VALS)] if f == 3 else _gen_dict(t)
+    return ["map", "AttrMap", amap, fmap, child]
+
+
+def _gen_chain(t, child, max_n):
+    for _ in range(t.next(max_n + 1)):
+        child = _gen_map(t, child)
+    return child
+
+
+def _gen_leaf(t, alpha, max_maps):
+    text = ["text", _gen_markup(t, alpha, 3), t.pick(ALIGNS), t.pick(WRAPS)]
+    return _gen_chain(t, text, max_maps)
+
+
+def _gen_container(t, alpha, level):
+    n = 1 + t.next(3)
+    children = []
+    for _ in range(n):
+        if level > 1 and t.next(3) == 0:
+            children.append(_gen_chain(t, _gen_container(t, alpha, level - 1), 2))
+        else:
+            children.append(_gen_leaf(t, alpha, 2))
+    if t.next(2):
+        return ["pile", children, t.next(6)]
+    return ["cols", children, t.next(6), t.next(3)]
+
+
+def _gen_canvas_op(t):
+    if t.next(2):
+        return ["fill", t.pick(_MAP_VALS)]
+    return ["apply", [[t.pick(ATTR_POOL), t.pick(_MAP_VALS)] for _ in range(t.next(5))]]
+
+
+def _build_maps_case(ints):
+    t = _Tape(ints)
+    enc, is_bytes = t.pick(KINDS)
+    focus = bool(t.next(2))
+    alpha = _alphabet(enc, is_bytes)
+    shape = t.next(5)
+    if shape <= 1:
+        tree = _gen_leaf(t, alpha, 4)
+    else:
+        tree = _gen_chain(t, _gen_container(t, alpha, 1 if shape <= 3 else 2), 2)
+    width = _min_width(tree) + t.next(15)
+    ops = [_gen_canvas_op(t) for _ in range(t.pick([0, 0, 1, 2, 3, 4]))]
+    return {"enc": enc, "bytes": is_bytes, "tree": tree, "width": width, "focus": focus, "ops": ops}
 
 
 def _maps_case_strategy():
-    def for_kind(kind):
-        enc, is_bytes = kind
-        return _tree_strategy(enc, is_bytes).flatmap(
-            lambda tree: st.fixed_dictionaries({
-                "enc": st.just(enc),
-                "bytes": st.just(is_bytes),
-                "tree": st.just(tree),
-                "width": st.integers(_min_width(tree), _min_width(tree) + 14),
-                "focus": st.booleans(),
-                "ops": st.lists(_canvas_op, max_size=4),
-            })
-        )
-
-    return st.sampled_from([(e, b) for e in ENCODINGS for b in (False, True)]).flatmap(for_kind)
+    return _tape(160).map(_build_maps_case)
 
 
 def maps_nontrivial(case):
@@ -1153,6 +1228,8 @@ def maps_classes(case):
 
 HIGH_SAMPLE = ["h0", "h7", "h8", "h15", "h16", "h20", "h87", "h88", "h200", "h255", "#000", "#f00", "#fa8", "#068",
                "#8cf", "#fff", "g0", "g50", "g100", "g#80", "#123456", "#ff8000", "#000000"]
+NAMES = ["n1", "n2", "n3", "body", "hl"]
+ALIAS_NAMES = NAMES + ["al1", "al2"]
 
 
 def _fg_string(colour, settings, colour_first=True):
@@ -1162,80 +1239,100 @@ def _fg_string(colour, settings, colour_first=True):
     return ",".join(parts) if parts else "default"
 
 
-_settings_s = st.lists(st.sampled_from(SETTINGS), max_size=3, unique=True)
-_basic_fg = st.one_of(st.none(), st.just("default"), st.sampled_from(BASIC))
-_basic_bg = st.one_of(st.just("default"), st.just(""), st.sampled_from(BASIC))
-_high = st.one_of(st.sampled_from(HIGH_SAMPLE), st.integers(0, 255).map(lambda n: f"h{n}"),
-                  st.sampled_from(BASIC), st.just("default"))
-NAMES = ["n1", "n2", "n3", "body", "hl"]
+def _gen_settings(t):
+    n = t.pick([0, 1, 0, 2, 3])
+    out = []
+    for _ in range(n):
+        s = t.pick(SETTINGS)
+        if s not in out:
+            out.append(s)
+    return out
 
 
-def _fg_s(colour_s):
-    return st.tuples(colour_s, _settings_s, st.booleans()).map(lambda t: _fg_string(t[0], t[1], t[2]))
+def _gen_fg(t, colours):
+    colour = t.pick(colours)
+    sett = _gen_settings(t)
+    return _fg_string(colour, sett, t.next(3) != 2)
 
 
-_entry_s = st.one_of(
-    st.tuples(st.just("e"), st.sampled_from(NAMES), st.sampled_from([3, 4, 6, 6]), _fg_s(_basic_fg), _basic_bg,
-              st.one_of(st.none(), _settings_s.map(lambda s: ",".join(s) if s else "default")),
-              st.one_of(st.none(), _fg_s(_high)), st.one_of(st.none(), _high)).map(list),
-)
+_BASIC_FG = [None, "default", *BASIC]
+_BASIC_BG = ["default", "", *BASIC]
+_HIGH = HIGH_SAMPLE + list(BASIC[:4]) + ["default"]
 
 
-def _palette_s(max_size):
-    def add_aliases(entries):
-        # aliases refer to names defined earlier in the same list
-        def place(draws):
-            out = []
-            defined = []
-            for e, (want_alias, name_i, other_i) in zip(entries, draws):
-                out.append(e)
-                defined.append(e[1])
-                if want_alias:
-                    out.append(["alias", (NAMES + ["al1", "al2"])[name_i % 7], defined[other_i % len(defined)]])
-                    defined.append(out[-1][1])
-            return out
-
-        return st.lists(st.tuples(st.integers(0, 3).map(lambda v: v == 0), st.integers(0, 6), st.integers(0, 9)),
-                        min_size=len(entries), max_size=len(entries)).map(place)
-
-    return st.lists(_entry_s, min_size=0, max_size=max_size).flatmap(add_aliases)
+def _gen_high(t):
+    k = t.next(4)
+    if k == 0:
+        return f"h{t.next(256)}"
+    return t.pick(_HIGH)
 
 
-_props = st.tuples(st.sampled_from(DEPTHS), st.booleans()).map(list)
-_spec_cell = st.one_of(
-    st.tuples(st.just("spec"), _fg_s(_basic_fg), _basic_bg.filter(lambda b: True), st.just(16)).map(list),
-    st.tuples(st.just("spec"), _fg_s(st.sampled_from(["h9", "h100", "#f00", "#fa8", "g50", "light blue"])),
-              st.sampled_from(["default", "h17", "#068", "dark red"]), st.just(256)).map(list),
-    st.tuples(st.just("spec"), _fg_s(st.sampled_from(["#123456", "#f00", "h100", "white"])),
-              st.sampled_from(["default", "#ff8000", "h17", "light gray"]), st.just(T24)).map(list),
-    st.tuples(st.just("spec"), _fg_s(st.sampled_from(["h9", "h80", "#f00", "#8cf"])),
-              st.sampled_from(["default", "h17", "#008"]), st.just(88)).map(list),
-)
-_cell_s = st.one_of(st.sampled_from(NAMES + ["al1", "al2"]), st.sampled_from(NAMES + ["al1", "al2"]), st.none(),
-                    st.just("undefined"), _spec_cell)
+def _gen_palette(t, max_entries):
+    out, defined = [], []
+    for _ in range(t.next(max_entries + 1)):
+        name = t.pick(NAMES)
+        arity = t.pick([6, 3, 4, 6])
+        fg = _gen_fg(t, _BASIC_FG)
+        bg = t.pick(_BASIC_BG)
+        mono = None if t.next(2) == 0 else (",".join(_gen_settings(t)) or "default")
+        fgh = bgh = None
+        if arity == 6:
+            if t.next(4):
+                colour, sett = _gen_high(t), _gen_settings(t)
+                fgh = _fg_string(colour, sett, t.next(3) != 2)
+            if t.next(4):
+                bgh = _gen_high(t)
+        out.append(["e", name, arity, fg, bg, mono, fgh, bgh])
+        defined.append(name)
+        if t.next(4) == 0:
+            out.append(["alias", t.pick(ALIAS_NAMES), t.pick(defined)])
+            defined.append(out[-1][1])
+    return out
+
+
+def _gen_props(t):
+    return [t.pick(DEPTHS), bool(t.next(2))]
+
+
+_SPEC_CHOICES = {
+    16: (_BASIC_FG, _BASIC_BG),
+    88: (["h9", "h80", "#f00", "#8cf", "light blue", None], ["default", "h17", "#008", "dark red"]),
+    256: (["h9", "h100", "#f00", "#fa8", "g50", "light blue", None], ["default", "h17", "#068", "dark red"]),
+    T24: (["#123456", "#f00", "h100", "white", None], ["default", "#ff8000", "h17", "light gray"]),
+}
+
+
+def _gen_cell(t):
+    k = t.next(8)
+    if k <= 3:
+        return t.pick(ALIAS_NAMES)
+    if k == 4:
+        return None
+    if k == 5:
+        return "undefined"
+    depth = t.pick([16, 256, T24, 88])
+    fgs, bgs = _SPEC_CHOICES[depth]
+    return ["spec", _gen_fg(t, fgs), t.pick(bgs), depth]
+
+
+def _build_sgr_case(ints):
+    t = _Tape(ints)
+    enc = t.pick(["utf-8", "utf-8", "utf-8", "euc-jp", "iso8859-1"])
+    pre = _gen_props(t) if t.next(3) == 0 else None
+    palette = _gen_palette(t, 5)
+    post = _gen_props(t) if t.next(3) else None
+    late = _gen_palette(t, 2) if t.next(3) == 0 else []
+    more = [_gen_props(t) for _ in range(t.pick([0, 0, 1, 2]))]
+    cols = 1 + t.next(6)
+    rows = 1 + t.next(2)
+    cells = [_gen_cell(t) for _ in range(cols * rows)]
+    glyphs = "".join(t.pick("xxxy #") for _ in range(cols * rows))
+    return {"enc": enc, "pre": pre, "palette": palette, "post": post, "late": late, "more": more, "cols": cols,
+            "cells": cells, "glyphs": glyphs}
 
 
 def _sgr_case_strategy():
-    def finish(t):
-        enc, pre, palette, post, late, more, cols, cells, glyphs = t
-        n = len(cells) - len(cells) % cols if len(cells) >= cols else len(cells)
-        if len(cells) < cols:
-            cols = len(cells)
-        cells = cells[:n]
-        return {"enc": enc, "pre": pre, "palette": palette, "post": post, "late": late, "more": more, "cols": cols,
-                "cells": cells, "glyphs": "".join(glyphs[i % len(glyphs)] for i in range(len(cells)))}
-
-    return st.tuples(
-        st.sampled_from(["utf-8", "utf-8", "utf-8", "euc-jp", "iso8859-1"]),
-        st.one_of(st.none(), _props),
-        _palette_s(5),
-        st.one_of(st.none(), _props, _props),
-        st.one_of(st.just([]), st.just([]), _palette_s(2)),
-        st.lists(_props, max_size=2),
-        st.integers(1, 6),
-        st.lists(_cell_s, min_size=1, max_size=10),
-        st.lists(st.sampled_from("xxxy #"), min_size=1, max_size=10),
-    ).map(finish)
+    return _tape(200).map(_build_sgr_case)
 
 
 def _forms(case):
@@ -1339,19 +1436,22 @@ def sweep_cases(ctx):
 def shard(ctx):
     STATS.clear()
     maxlen = ctx.scale(4, 5)
-    ctx.sweep("markup_short", short_cases(ctx, maxlen), nontrivial=markup_nontrivial, classify=None,
-              exhaustive_name=f"per-character tags: strings of length <= {maxlen} x width 1..5 x wrap x align x str/bytes x 3 encodings",
-              stride=False)
+    full = ctx.tier == "thorough"
+    # cheapest first: if the wall-clock budget runs out on a loaded machine the sweeps have been done
+    ctx.sweep("sgr_sweep", sweep_cases(ctx), nontrivial=None, classify=None,
+              exhaustive_name="17x17 basic pairs x depths x bright_is_bold; 64 setting subsets; h0..h255; #rgb")
     if ctx.failure is None:
-        ctx.sweep("sgr_sweep", sweep_cases(ctx), nontrivial=None, classify=None,
-                  exhaustive_name="17x17 basic pairs x depths x bright_is_bold; 64 setting subsets; h0..h255; #rgb")
+        ctx.sweep("markup_short", short_cases(ctx, maxlen, full), nontrivial=markup_nontrivial, classify=None,
+                  exhaustive_name=f"per-character tags: strings of length <= {maxlen} over {6 if full else 5} letters x "
+                                  f"width 1..{6 if full else 4} x wrap x align x str/bytes x 3 encodings",
+                  stride=False)
     if ctx.failure is None:
-        ctx.given("markup", _markup_case_strategy(), ctx.scale(900, 30000), nontrivial=markup_nontrivial,
+        ctx.given("maps", _maps_case_strategy(), ctx.scale(1200, 40000), nontrivial=maps_nontrivial, classify=maps_classes)
+    if ctx.failure is None:
+        ctx.given("sgr", _sgr_case_strategy(), ctx.scale(800, 25000), nontrivial=sgr_nontrivial, classify=sgr_classes)
+    if ctx.failure is None:
+        ctx.given("markup", _markup_case_strategy(), ctx.scale(2500, 60000), nontrivial=markup_nontrivial,
                   classify=markup_classes)
-    if ctx.failure is None:
-        ctx.given("maps", _maps_case_strategy(), ctx.scale(500, 15000), nontrivial=maps_nontrivial, classify=maps_classes)
-    if ctx.failure is None:
-        ctx.given("sgr", _sgr_case_strategy(), ctx.scale(500, 15000), nontrivial=sgr_nontrivial, classify=sgr_classes)
     for k, v in sorted(STATS.items()):
         ctx.count(k, v)
 
@@ -1359,4 +1459,74 @@ def shard(ctx):
 # ---------------------------------------------------------------------------------------------
 # known findings (active only when listed in known_findings.d/C17.json / known_findings.json with status "known")
 
-KNOWN = {}
+import re as _re
+
+
+def _alias_unpropagated(case, draw, name):
+    """Replays the order of calls of the case: is `name` an alias registered after the last
+    set_terminal_properties() call that actually changed a property (those rebuild the display's escape table
+    from the palette)?  has_underline is never changed by the cases."""
+    cur = (16, False)
+    pending = set()
+
+    def props(step):
+        nonlocal cur
+        if step is not None and tuple(step) != cur:
+            cur = tuple(step)
+            pending.clear()
+
+    def reg(items):
+        for e in items:
+            if e[0] == "alias":
+                pending.add(e[1])
+            else:
+                pending.discard(e[1])
+
+    props(case.get("pre"))
+    reg(case["palette"])
+    props(case.get("post"))
+    reg(case.get("late", []))
+    for step in case.get("more", [])[:draw]:
+        props(step)
+    return name in pending
+
+
+def _known_alias_not_signalled(sub, case, v):
+    """BaseScreen.register_palette copies an alias into self._palette without emitting UPDATE_PALETTE_ENTRY, so the
+    raw display's escape table never learns the name (it shows default/default, or what the name meant before)
+    until some later set_terminal_properties() change rebuilds the table."""
+    if v.clause != "sgr-cell:alias" or "[alias shown as the name's previous definition]" not in v.message:
+        return False
+    m = _re.match(r"\[\S+ depth \d+ bright_is_bold \w+ draw (\d+)\] cell (\d+) ", v.message)
+    if not m:
+        return False
+    name = case["cells"][int(m.group(2))]
+    return isinstance(name, str) and _alias_unpropagated(case, int(m.group(1)), name)
+
+
+def _known_large_h_not_first(sub, case, v):
+    """register_palette_entry's large_h() only recognises 'hN' when the high-colour foreground string *starts* with
+    it; with the settings first ('bold,h200') the 88-colour AttrSpec is built from 'h200' and raises."""
+    if v.clause != "exception:AttrSpecError@display/common.py:__set_foreground":
+        return False
+    for e in case["palette"] + case.get("late", []):
+        if e[0] == "e" and e[2] == 6 and e[6] is not None:
+            parts = [p.strip(" ") for p in e[6].split(",")]
+            for k, part in enumerate(parts):
+                n = _h_number(part)
+                if n is not None and n > 87 and k > 0 and f"'{part}'" in v.message:
+                    return True
+    return False
+
+
+def _known_rgb_of_245(sub, case, v):
+    """Same root cause as C18-gray-245-wrong-step: urwid's 256-colour table has 0x84 for colour 245 where xterm has
+    0x8a, so 'h245' (and grays mapped to it) at 2**24 colours is sent as 38/48;2;132;132;132."""
+    return v.clause == "sgr-cell:rgb-of-245" and "(132, 132, 132)" in v.message
+
+
+KNOWN = {
+    "C17-palette-alias-not-signalled": _known_alias_not_signalled,
+    "C17-high-colour-number-after-settings-88": _known_large_h_not_first,
+    "C17-rgb-of-colour-245": _known_rgb_of_245,
+}
